@@ -4,7 +4,7 @@
 From Coq Require Import ZArith List Lia Bool.
 From Flocq Require Import Core BinarySingleNaN.
 From RtcmModel Require Import Types BitIO Floats Field SigId Text Bias Msm Layout.
-From RtcmProofs Require Import ListZ FragInd EncodeLen BitProofs DecodeBound DecodeTotal FieldProofs.
+From RtcmProofs Require Import ListZ FragInd EncodeLen BitProofs DecodeBound DecodeTotal FieldProofs TextProofs.
 Import ListNotations.
 Open Scope Z_scope.
 
@@ -74,6 +74,103 @@ Proof.
   - destruct (encode_core fs v) as [c|e|]; cbn [bind] in E; try discriminate. eapply put_frame; eassumption.
 Qed.
 
+(** ---------- descriptor strings ---------- *)
+Definition nz_byte (b : Z) : Prop := 1 <= b <= 255.
+
+Lemma parse_str_bytes_spec data : bytes_ok data = true -> forall n off acc bs off', 0 <= off ->
+  parse_str_bytes n data off acc = Ok (bs, off') ->
+  exists l, bs = rev acc ++ l /\ length l = n /\ Forall nz_byte l /\ off' = off + 8 * Z.of_nat n.
+Proof.
+  intros Hb. induction n as [|n IH]; intros off acc bs off' Ho H; cbn [parse_str_bytes] in H.
+  - inversion H; subst. exists []. rewrite app_nil_r. repeat split; [constructor|lia].
+  - destruct (parse KU 8 data off 8) as [[v o1]|e|] eqn:P; cbn [bind] in H; try discriminate.
+    destruct (parse_range KU 8 data off 8 v o1 ltac:(lia) ltac:(lia) Ho Hb P) as [Hr [-> _]]. cbn [representable] in Hr.
+    destruct (IH (off + 8) _ bs off' ltac:(lia) H) as [l [E [Ll [Fl Eo]]]].
+    exists ((if v =? 0 then 164 else v) :: l). cbn [rev] in E. rewrite <- app_assoc in E. cbn [app] in E.
+    split; [exact E|]. split; [cbn [length]; lia|]. split; [|lia].
+    constructor; [|exact Fl]. unfold nz_byte. destruct (Z.eqb_spec v 0); lia.
+Qed.
+
+Lemma parse_str_bytes_ext d1 d2 : bytes_ok d1 = true -> bytes_ok d2 = true -> forall n off acc, 0 <= off ->
+  agree d1 d2 off (off + 8 * Z.of_nat n) -> parse_str_bytes n d1 off acc = parse_str_bytes n d2 off acc.
+Proof.
+  intros B1 B2. induction n as [|n IH]; intros off acc Ho Ha; cbn [parse_str_bytes]; [reflexivity|].
+  rewrite (parse_ext KU 8 d1 d2 off 8 ltac:(lia) ltac:(lia) Ho B1 B2 ltac:(apply (agree_sub _ _ _ _ off (off + 8) Ha); lia)).
+  destruct (parse KU 8 d2 off 8) as [[v o1]|e|] eqn:P; cbn [bind]; try reflexivity.
+  apply parse_off in P. destruct P as [-> _]. apply IH; [lia|]. apply (agree_sub _ _ _ _ _ _ Ha); lia.
+Qed.
+
+(** writing non-zero bytes and reading them back *)
+Lemma put_bytes_fix : forall l d o acc, Forall nz_byte l -> bytes_ok d = true -> 0 <= o -> o + 8 * zlen l <= 8 * zlen d ->
+  exists d', put_bytes (d, o) l = Ok (d', o + 8 * zlen l) /\ bytes_ok d' = true /\ zlen d' = zlen d /\ agree d d' 0 o /\
+             parse_str_bytes (length l) d' o acc = Ok (rev acc ++ l, o + 8 * zlen l).
+Proof.
+  induction l as [|b l IH]; intros d o acc Hl Hb Ho Hfit.
+  - exists d. unfold zlen. cbn [length put_bytes parse_str_bytes]. replace (o + 8 * Z.of_nat 0) with o by lia. rewrite app_nil_r.
+    repeat split; try assumption; try reflexivity.
+  - inversion Hl as [|? ? Hb0 Hl']; subst. rewrite zlen_cons in *. unfold nz_byte in Hb0.
+    assert (Hr : representable KU 8 b) by (cbn [representable]; lia).
+    destruct (put_parse_roundtrip KU 8 d o b 8 ltac:(lia) ltac:(lia) Ho ltac:(pose proof (zlen_nonneg l); lia) Hb Hr) as [d1 [Pu Pa]].
+    destruct (put_frame KU 8 d o b 8 d1 _ ltac:(lia) ltac:(lia) Ho Hb Pu) as [_ [_ [L1 [B1 A1]]]].
+    destruct (IH d1 (o + 8) ((if b =? 0 then 164 else b) :: acc) Hl' B1 ltac:(lia) ltac:(lia)) as [d2 [Pu2 [B2 [L2 [A2 Pa2]]]]].
+    exists d2. cbn [put_bytes fst snd]. rewrite Pu. cbn [bind].
+    replace (o + 8 * (1 + zlen l)) with (o + 8 + 8 * zlen l) by lia.
+    split; [exact Pu2|]. split; [exact B2|]. split; [lia|]. split.
+    + eapply agree_trans; [exact A1|]. apply (agree_sub _ _ 0 (o + 8)); [exact A2|lia|lia].
+    + cbn [length parse_str_bytes].
+      rewrite <- (parse_ext KU 8 d1 d2 o 8 ltac:(lia) ltac:(lia) Ho B1 B2 ltac:(apply (agree_sub _ _ 0 (o + 8)); [exact A2|lia|lia])), Pa. cbn [bind].
+      rewrite Pa2. destruct (Z.eqb_spec b 0) as [|_]; [lia|]. cbn [rev]. rewrite <- app_assoc. reflexivity.
+Qed.
+
+Lemma map_to_char_nz l : Forall nz_byte l -> map to_char l = l.
+Proof. induction 1 as [|b l Hb _ IH]; [reflexivity|]. cbn [map]. rewrite IH. unfold to_char, nz_byte in *. destruct (Z.eqb_spec b 0); [lia|reflexivity]. Qed.
+Lemma map_from_char_nz l : Forall nz_byte l -> map from_char l = l.
+Proof. induction 1 as [|b l Hb _ IH]; [reflexivity|]. cbn [map]. rewrite IH. rewrite from_char_id by exact Hb. reflexivity. Qed.
+
+Lemma decode_str_ext cap lb d1 d2 off v off' : 1 <= lb <= 8 -> bytes_ok d1 = true -> bytes_ok d2 = true -> 0 <= off ->
+  decode_str cap lb d1 off = Ok (v, off') -> agree d1 d2 off off' -> decode_str cap lb d2 off = Ok (v, off').
+Proof.
+  intros Hl B1 B2 Ho H Ha. unfold decode_str in *.
+  destruct (parse KU 8 d1 off lb) as [[len o1]|e|] eqn:P; cbn [bind] in H; try discriminate.
+  destruct (cap <? len) eqn:Ec; [discriminate|].
+  destruct (parse_str_bytes (Z.to_nat len) d1 o1 []) as [[bs o2]|e|] eqn:E; cbn [bind] in H; try discriminate. inversion H; subst.
+  destruct (parse_range KU 8 d1 off lb len o1 ltac:(lia) ltac:(lia) Ho B1 P) as [Hr [-> _]]. cbn [representable] in Hr.
+  destruct (parse_str_bytes_spec d1 B1 (Z.to_nat len) (off + lb) [] bs off' ltac:(lia) E) as [l [_ [_ [_ Eo]]]].
+  rewrite <- (parse_ext KU 8 d1 d2 off lb ltac:(lia) ltac:(lia) Ho B1 B2 ltac:(apply (agree_sub _ _ _ _ off (off + lb) Ha); lia)), P. cbn [bind].
+  rewrite Ec. rewrite <- (parse_str_bytes_ext d1 d2 B1 B2 (Z.to_nat len) (off + lb) [] ltac:(lia) ltac:(apply (agree_sub _ _ _ _ (off + lb) (off + lb + 8 * Z.of_nat (Z.to_nat len)) Ha); lia)), E. reflexivity.
+Qed.
+
+Lemma decode_str_fix cap lb data off v off' : 1 <= lb <= 8 -> 0 <= cap -> bytes_ok data = true -> 0 <= off ->
+  decode_str cap lb data off = Ok (v, off') ->
+  forall d o, bytes_ok d = true -> 0 <= o -> o + (off' - off) <= 8 * zlen d ->
+  exists d', encode_str cap lb (d, o) v = Ok (d', o + (off' - off)) /\ bytes_ok d' = true /\ zlen d' = zlen d /\
+             agree d d' 0 o /\ decode_str cap lb d' o = Ok (v, o + (off' - off)).
+Proof.
+  intros Hl Hc Hb Ho H d o Hbd Hoo Hfit. unfold decode_str in H.
+  destruct (parse KU 8 data off lb) as [[len o1]|e|] eqn:P; cbn [bind] in H; try discriminate.
+  destruct (cap <? len) eqn:Ec; [discriminate|]. apply Z.ltb_ge in Ec.
+  destruct (parse_str_bytes (Z.to_nat len) data o1 []) as [[bs o2]|e|] eqn:E; cbn [bind] in H; try discriminate. inversion H; subst.
+  destruct (parse_range KU 8 data off lb len o1 ltac:(lia) ltac:(lia) Ho Hb P) as [Hr [-> _]]. cbn [representable] in Hr.
+  destruct (parse_str_bytes_spec data Hb (Z.to_nat len) (off + lb) [] bs off' ltac:(lia) E) as [l [El [Ll [Fl Eo]]]]. cbn [rev app] in El. subst bs off'.
+  assert (Hzl : zlen l = len) by (unfold zlen; rewrite Ll; lia).
+  rewrite Z2Nat.id in Hfit |- * by lia.
+  unfold df88591_chars. rewrite (map_to_char_nz l Fl).
+  assert (Hfrom : df88591_from_str cap l = l).
+  { rewrite df88591_from_str_spec by exact Hc. rewrite firstn_all2 by (unfold zlen in Hzl; lia). apply map_from_char_nz. exact Fl. }
+  assert (H256 : len mod 256 = len).
+  { apply Z.mod_small. split; [lia|]. apply Z.lt_le_trans with (2 ^ lb); [lia|]. change 256 with (2 ^ 8). apply Z.pow_le_mono_r; lia. }
+  destruct (put_parse_roundtrip KU 8 d o len lb ltac:(lia) ltac:(lia) Hoo ltac:(lia) Hbd Hr) as [d1 [Pu Pa]].
+  destruct (put_frame KU 8 d o len lb d1 _ ltac:(lia) ltac:(lia) Hoo Hbd Pu) as [_ [_ [L1 [B1 A1]]]].
+  destruct (put_bytes_fix l d1 (o + lb) [] Fl B1 ltac:(lia) ltac:(lia)) as [d2 [Pu2 [B2 [L2 [A2 Pa2]]]]].
+  exists d2. unfold encode_str, decode_str. cbn [fst snd]. rewrite Hfrom, Hzl, H256, Pu. cbn [bind].
+  replace (o + (off + lb + 8 * len - off)) with (o + lb + 8 * zlen l) by lia.
+  split; [exact Pu2|]. split; [exact B2|]. split; [lia|]. split.
+  - eapply agree_trans; [exact A1|]. apply (agree_sub _ _ 0 (o + lb)); [exact A2|lia|lia].
+  - rewrite <- (parse_ext KU 8 d1 d2 o lb ltac:(lia) ltac:(lia) Hoo B1 B2 ltac:(apply (agree_sub _ _ 0 (o + lb)); [exact A2|lia|lia])), Pa. cbn [bind].
+    destruct (Z.ltb_spec cap len); [lia|]. rewrite <- Ll. rewrite Pa2. cbn [bind rev app].
+    unfold df88591_chars. rewrite (map_to_char_nz l Fl). reflexivity.
+Qed.
+
 (** ---------- layouts ---------- *)
 Definition len_field_ok (fs : field_spec) : bool :=
   match f_dt fs, f_ck fs, f_res fs, f_bias fs, f_inv fs with
@@ -108,6 +205,7 @@ Section Plain.
   Fixpoint plain (f : frag) : bool :=
     match f with
     | FField fs => field_rt_ok fs && field_dec_ok fs
+    | FStr cap lb => (1 <=? lb) && (lb <=? 8) && (0 <=? cap)
     | FStruct l => (fix all (l : list frag) : bool := match l with [] => true | x :: r => plain x && all r end) l
     | FLenMid f1 lenf f2 elem cap =>
         (fix all (l : list frag) : bool := match l with [] => true | x :: r => plain x && all r end) f1
@@ -125,6 +223,7 @@ Section Plain.
   Proof.
     apply (frag_ind' (fun f => plain f = true -> frag_dec_ok f = true)); cbn [plain frag_dec_ok]; try discriminate.
     - intros fs H. apply andb_true_iff in H. tauto.
+    - intros cap lb H. apply andb_true_iff in H. tauto.
     - intros l Hl H. rewrite all_plain_eq in H. rewrite all_dec_ok_eq. rewrite forallb_forall in *. rewrite Forall_forall in Hl. intros x Hx. apply Hl; [exact Hx|apply H; exact Hx].
     - intros f1 lenf f2 elem cap H1 H2 He H. rewrite (all_plain_eq f1), (all_plain_eq f2) in H. rewrite (all_dec_ok_eq f1), (all_dec_ok_eq f2).
       apply andb_true_iff in H. destruct H as [H Pe]. apply andb_true_iff in H. destruct H as [H P2]. apply andb_true_iff in H. destruct H as [P1 Pl].
@@ -217,6 +316,8 @@ Section Plain.
     - intros fs Hp d1 d2 off v off' B1 B2 Ho H Ha. apply andb_true_iff in Hp. destruct Hp as [_ Hok].
       cbn [decode_frag] in *. pose proof (decode_field_off _ _ _ _ _ H) as ->.
       rewrite <- (decode_field_ext fs d1 d2 off Hok Ho B1 B2 Ha). exact H.
+    - intros cap lb Hp d1 d2 off v off' B1 B2 Ho H Ha. apply andb_true_iff in Hp. destruct Hp as [Hp _]. apply andb_true_iff in Hp. destruct Hp as [L1 L2]. apply Z.leb_le in L1, L2.
+      cbn [decode_frag] in *. exact (decode_str_ext cap lb d1 d2 off v off' ltac:(lia) B1 B2 Ho H Ha).
     - intros l Hl Hp d1 d2 off v off' B1 B2 Ho H Ha. rewrite all_plain_eq in Hp. cbn [decode_frag] in *.
       destruct (go_dec d1 l off) as [[vs o1]|e|] eqn:E; cbn [bind] in H; try discriminate. inversion H; subst.
       rewrite (list_ext l Hl Hp d1 d2 off vs off' B1 B2 Ho E Ha). reflexivity.
@@ -344,6 +445,9 @@ Section Plain.
       destruct (field_value_roundtrip fs data off v _ d o Hrt Hok Hb Ho H Hbd Hoo Hfit) as [d' [E D]].
       destruct (encode_field_frame fs d o v d' _ Hok Hoo Hbd E) as [_ [_ [L [B A]]]].
       exists d'. repeat split; try assumption; apply A.
+    - (* descriptor string *)
+      intros cap lb Hp data off v off' Hb Ho H d o Hbd Hoo Hfit. apply andb_true_iff in Hp. destruct Hp as [Hp L3]. apply andb_true_iff in Hp. destruct Hp as [L1 L2]. apply Z.leb_le in L1, L2, L3.
+      cbn [decode_frag encode_frag] in *. exact (decode_str_fix cap lb data off v off' ltac:(lia) L3 Hb Ho H d o Hbd Hoo Hfit).
     - (* struct *)
       intros l Hl Hp data off v off' Hb Ho H d o Hbd Hoo Hfit. rewrite all_plain_eq in Hp. cbn [decode_frag] in H.
       destruct (go_dec data l off) as [[vs o1]|e|] eqn:E; cbn [bind] in H; try discriminate. inversion H; subst.
